@@ -471,11 +471,16 @@ impl<K: Hash + Eq, V, RH: BuildHasher, FH: BuildHasher, GH: BuildHasher> Cache<K
         // frequently used list
         if self.ghost.contains(&k) {
             return if recent_len + freq_len >= self.size {
+                // take the victim from the preferred queue, falling back to the other
+                // one when the preferred queue is empty
                 let ent = if recent_len > self.recent_size {
-                    self.recent.remove_lru_in().unwrap()
+                    self.recent.remove_lru_in()
                 } else {
-                    self.frequent.remove_lru_in().unwrap()
-                };
+                    self.frequent
+                        .remove_lru_in()
+                        .or_else(|| self.recent.remove_lru_in())
+                }
+                .unwrap();
 
                 let rst = self.ghost.put_or_evict_nonnull(ent);
                 match self.ghost.map.remove(&key_ref) {
@@ -540,11 +545,15 @@ impl<K: Hash + Eq, V, RH: BuildHasher, FH: BuildHasher, GH: BuildHasher> Cache<K
         // LRU. Then, put the removed entry to the front of the ghost LRU,
         // if ghost LRU is also full, the cache will evict the less recent used entry of
         // ghost LRU.
-        let ent = if recent_len >= self.recent_size {
-            self.recent.remove_lru_in().unwrap()
+        // (fall back to the other queue when the preferred one is empty)
+        let ent = if recent_len > 0 && recent_len >= self.recent_size {
+            self.recent.remove_lru_in()
         } else {
-            self.frequent.remove_lru_in().unwrap()
-        };
+            self.frequent
+                .remove_lru_in()
+                .or_else(|| self.recent.remove_lru_in())
+        }
+        .unwrap();
 
         self.recent.put_nonnull(bks);
         self.ghost.put_nonnull(ent)
